@@ -101,14 +101,20 @@ def run_case(case):
             if r < 0.45:
                 continue
             stream = rng.choice(['stdout', 'stderr'])
-            style = rng.choice(['nl', 'nl', 'nonl', 'buffer'])
+            style = rng.choice(['nl', 'nl', 'nonl', 'buffer', 'rawbuf'])
             tok = 'TK%dx%s%dq' % (i, ph[0], n)
             n += 1
             text = tok + ('\n' if style == 'nl' else '')
-            t['actions'].append({
+            act = {
                 'ph': ph, 'do': 'write',
-                'stream': stream + ('.buffer' if style == 'buffer' else ''),
-                'text': text})
+                'stream': stream + ('.buffer' if style in ('buffer', 'rawbuf')
+                                    else ''),
+                'text': text}
+            if style == 'rawbuf':
+                # the token followed by bytes that no codec accepts
+                act['tail_hex'] = rng.choice(['ff0a', 'fffe0a', 'c30a',
+                                              '80', 'eda0800a'])
+            t['actions'].append(act)
             tokens[tok] = (i, stream, ph, style)
         t['actions'].append({'ph': 'body', 'do': 'probe_streams'})
         tests.append(t)
